@@ -18,7 +18,7 @@ RULE = ("plan = op + operands. rbind: 2..4 frames (0..8 rows quick / 0..20 thoro
         "and order as specified, row order unchanged. Non-trivial: rbind with a column absent from a non-empty operand, or a "
         "rename/colnames map that is a non-identity permutation, or a cbind/update name collision, or modify replacing an "
         "existing column. Distinct = plan hash.")
-CASES = {"quick": 1500, "thorough": 8000}
+CASES = {"quick": 1500, "thorough": 16000}
 
 FAMILIES = {"num": ["i", "f"], "time": ["d", "t"], "bool": ["b"], "str": ["s"], "obj": ["o"]}
 POOL = ["a", "b", "c", "d"]
